@@ -23,6 +23,7 @@ f := {|a, b, k: 0| [a, b, k]}
 fv := {|x| x.f}
 gv := {|acc, x| acc.g(x)}
 gv2 := {|acc, x| acc + x}
+idv := {|x| x}
 `
 
 // a template: text with holes {i:type}; benign values per type.
@@ -110,6 +111,21 @@ func c07chainTemplates() []c07tmpl {
 		ts = append(ts, c07tmpl{name: "reduce chain " + ch + " literal", text: arr + ch + "(" + acc + "){|acc, x| acc.g(x)}"})
 		ts = append(ts, c07tmpl{name: "reduce chain " + ch + " var", text: arr + ch + "(" + acc + ")^gv"})
 	}
+	// the raise comes from the receiver's iterator while it produces element k (not from the callee)
+	itr := "<{|i| yield [{|| «0:int»}, {|| «1:int»}, {|| «2:int»}][i]() if i < 3; recur(i + 1)}>.new(0)"
+	for _, ch := range []string{"@", "&@", "=@"} {
+		ts = append(ts, c07tmpl{name: "iterator receiver list chain " + ch + " prop", text: itr + ch + "S"})
+		ts = append(ts, c07tmpl{name: "iterator receiver list chain " + ch + " literal", text: itr + ch + "{|x| x}"})
+		ts = append(ts, c07tmpl{name: "iterator receiver list chain " + ch + " var", text: itr + ch + "^idv"})
+	}
+	for _, ch := range []string{"$", "&$", "=$"} {
+		ts = append(ts, c07tmpl{name: "iterator receiver reduce chain " + ch + " prop", text: itr + ch + "(0)+"})
+		ts = append(ts, c07tmpl{name: "iterator receiver reduce chain " + ch + " literal", text: itr + ch + "(0){|acc, x| acc + x}"})
+		ts = append(ts, c07tmpl{name: "iterator receiver reduce chain " + ch + " var", text: itr + ch + "(0)^gv2"})
+	}
+	ts = append(ts, c07tmpl{name: "iterator receiver A", text: itr + ".A"})
+	ts = append(ts, c07tmpl{name: "iterator receiver reduce method", text: itr + ".reduce(gv2, init: 0)"})
+	ts = append(ts, c07tmpl{name: "iterator receiver next x3", text: "{|it| [it.next, it.next, it.next]}(" + itr + ")"})
 	for _, ch := range []string{".", "&.", "=."} {
 		ts = append(ts, c07tmpl{name: "scalar chain " + ch + " prop", text: "[" + el(0) + ch + "f, " + el(1) + ch + "f]"})
 		ts = append(ts, c07tmpl{name: "scalar chain " + ch + " literal", text: "[" + el(0) + ch + "{|x| x.f}, " + el(1) + ch + "{|x| x.f}]"})
